@@ -460,7 +460,7 @@ def dump_func_for_dataclass(cls: Type[T],
                         field_assignments.append(f"if not {skip_field}:")
 
                     if json_field:
-                        field_assignments.append(f"  result.append(('{json_field}',"
+                        field_assignments.append(f"  result.append(({json_field!r},"
                                                  f"asdict(o.{field},dict_factory,hooks,config,cls_to_asdict)))")
                     # Empty string, will be the case for a dataclass
                     # field which specifies a "JSON Path".
